@@ -27,9 +27,30 @@ HERE = os.path.dirname(os.path.dirname(os.path.abspath(__file__)))
 def load_variants(prop):
     try:
         m = importlib.import_module("variants.%s" % prop.lower())
+        out = list(m.VARIANTS)
     except ModuleNotFoundError:
-        return []
-    return list(m.VARIANTS)
+        out = []
+    return out + load_seeded(prop)
+
+
+def load_seeded(prop):
+    """Seeded changes written by independent agents (seeded/<id>/patch.diff + meta.json); those the checks are
+    expected to catch are replayed as breaking variants, the ones recorded as not decided are left out."""
+    import json
+    root = os.path.join(HERE, "seeded")
+    out = []
+    for d in sorted(os.listdir(root)) if os.path.isdir(root) else []:
+        mp = os.path.join(root, d, "meta.json")
+        if not os.path.isfile(mp):
+            continue
+        with open(mp, encoding="utf-8") as fh:
+            meta = json.load(fh)
+        caught = meta.get("caught_by", {})
+        if prop not in caught:
+            continue
+        out.append({"id": "seed-" + d, "patch": os.path.join(root, d, "patch.diff"), "expect": "fire",
+                    "rule": caught[prop][0] if caught[prop] else None, "why": meta.get("summary", ""), "file": None})
+    return out
 
 
 def _run_check(prop, root):
@@ -41,7 +62,25 @@ def _run_check(prop, root):
     return p.returncode, p.stdout + p.stderr
 
 
+def _one_patch(prop, repo_root, base_tmp, v):
+    d = tempfile.mkdtemp(prefix="v_", dir=base_tmp)
+    try:
+        shutil.copytree(os.path.join(repo_root, "mingus"), os.path.join(d, "mingus"),
+                        ignore=shutil.ignore_patterns("__pycache__", "*.pyc"))
+        p = subprocess.run(["git", "apply", "--unsafe-paths", "--directory=" + d, v["patch"]], cwd=d, capture_output=True, text=True)
+        if p.returncode != 0:
+            p = subprocess.run(["patch", "-p1", "-s", "-i", v["patch"]], cwd=d, capture_output=True, text=True)
+            if p.returncode != 0:
+                return ("skipped", v, "patch no longer applies")
+        rc, out = _run_check(prop, d)
+    finally:
+        shutil.rmtree(d, ignore_errors=True)
+    return ("ran", v, (rc, out))
+
+
 def _one(prop, repo_root, base_tmp, v):
+    if v.get("patch"):
+        return _one_patch(prop, repo_root, base_tmp, v)
     rel = v["file"]
     src_path = os.path.join(repo_root, rel)
     try:
